@@ -39,3 +39,58 @@ func Verif_C19_ConvertersTotal(conv, n int) {
 	verifsym.Assert(out == again, "converter is not a function of its input")
 	verifsym.Reach("end")
 }
+
+// vFillers: the concrete filler bytes of the "long sparse" harnesses.
+var vFillers = [...]byte{'a', 'Z', '7', '_'}
+
+// Verif_C19_SplitLong: strings of n bytes (n up to 16) made of a concrete filler
+// byte (lower-case letter, upper-case letter, digit or underscore, case split)
+// except at two positions i < j (case split) which hold arbitrary symbolic
+// bytes: same assertions as SplitLossless. Covers length-dependent behaviour
+// beyond the exhaustive bound with a sparse symbolic input.
+func Verif_C19_SplitLong(n int) {
+	fill := vFillers[verifsym.IntRange(0, len(vFillers)-1)]
+	i := verifsym.IntRange(0, n-2)
+	j := verifsym.IntRange(i+1, n-1)
+	b := make([]byte, n)
+	for k := range b {
+		b[k] = fill
+	}
+	b[i], b[j] = verifsym.Byte(), verifsym.Byte()
+	s := string(b)
+	words := Split(s)
+	cat := ""
+	for _, w := range words {
+		verifsym.Assert(len(w) > 0, "empty word")
+		cat += w
+	}
+	verifsym.Assert(cat == s, "concatenation of words differs from input")
+	if !utf8.ValidString(s) {
+		verifsym.Assert(len(words) == 1, "invalid UTF-8 must come back as one word")
+	}
+	verifsym.Observe("words", words)
+	verifsym.Reach("end")
+}
+
+// Verif_C19_ConvertersLong: converter conv on inputs of `words` words of wlen
+// bytes each (alternating lower-case and upper-case-initial words, so that
+// Split finds that many words) with one arbitrary symbolic byte at a
+// case-split position: returns, and returns the same text again.
+func Verif_C19_ConvertersLong(conv, words, wlen int) {
+	n := words * wlen
+	b := make([]byte, n)
+	for k := range b {
+		if k%wlen == 0 {
+			b[k] = 'A' + byte((k/wlen)%26)
+		} else {
+			b[k] = 'a' + byte(k%26)
+		}
+	}
+	b[verifsym.IntRange(0, n-1)] = verifsym.Byte()
+	s := string(b)
+	f := verifConverters[conv]
+	out := f(s)
+	again := f(s)
+	verifsym.Assert(out == again, "converter is not a function of its input")
+	verifsym.Reach("end")
+}
